@@ -19,12 +19,16 @@ pub struct TxV<'a> {
     pub globals: Vec<(String, Ty, Option<&'a Sx>)>,
     /// `E::A` and `A` → (enum, value)
     pub enum_consts: HashMap<String, (String, V)>,
+    /// struct → method name → overloads
+    pub methods: HashMap<String, HashMap<String, Vec<&'a Sx>>>,
 }
 
 struct Frame {
     vals: HashMap<String, VV>,
     types: HashMap<String, Ty>,
     ret: Ty,
+    /// inside a method: the struct and the current value of the object
+    this: Option<(String, VV)>,
 }
 
 struct Place {
@@ -63,7 +67,7 @@ fn common_scalar(x: T, y: T) -> Option<T> {
 
 impl<'a> TxV<'a> {
     pub fn new(prog: &'a [Sx]) -> Option<Self> {
-        let mut me = TxV { funcs: HashMap::new(), types: Types::default(), globals: Vec::new(), enum_consts: HashMap::new() };
+        let mut me = TxV { funcs: HashMap::new(), types: Types::default(), globals: Vec::new(), enum_consts: HashMap::new(), methods: HashMap::new() };
         // names of the declared types first (a struct member may name another struct)
         for d in prog {
             match d.head() {
@@ -82,7 +86,12 @@ impl<'a> TxV<'a> {
                 "struct" => {
                     let mut members = Vec::new();
                     for m in &x[1..] {
-                        members.push((m.args()[0].atom().to_string(), me.ty(&m.args()[1])?));
+                        if m.head() == "method" {
+                            let f = &m.args()[0];
+                            me.methods.entry(x[0].atom().to_string()).or_default().entry(f.args()[0].atom().to_string()).or_default().push(f);
+                        } else {
+                            members.push((m.args()[0].atom().to_string(), me.ty(&m.args()[1])?));
+                        }
                     }
                     me.types.structs.insert(x[0].atom().to_string(), members);
                 }
@@ -156,8 +165,21 @@ impl<'a> TxV<'a> {
     }
 
     // ---------------------------------------------------------------------------------------- static types
+    /// index and type of a data member of the object the frame's method runs on
+    fn this_member(&self, name: &str, fr: &Frame) -> Option<(usize, Ty)> {
+        let (k, _) = fr.this.as_ref()?;
+        let members = self.types.structs.get(k)?;
+        let i = members.iter().position(|m| m.0 == name)?;
+        Some((i, members[i].1.clone()))
+    }
+
+    /// a name denotes a local, else a member of `this`, else a global (C++ scoping)
     fn var_type(&self, name: &str, fr: &Frame) -> Option<Ty> {
-        fr.types.get(name).cloned().or_else(|| self.globals.iter().find(|g| g.0 == name).map(|g| g.1.clone()))
+        fr.types
+            .get(name)
+            .cloned()
+            .or_else(|| self.this_member(name, fr).map(|m| m.1))
+            .or_else(|| self.globals.iter().find(|g| g.0 == name).map(|g| g.1.clone()))
     }
 
     /// numeric view of a type: enums act as their underlying scalar in arithmetic
@@ -292,7 +314,12 @@ impl<'a> TxV<'a> {
                     }
                     return Some(t);
                 }
-                let f = self.resolve(x[0].atom(), &x[1..], fr)?;
+                let (f, _) = self.resolve(x[0].atom(), &x[1..], fr)?;
+                self.ty(&f.args()[1])
+            }
+            "mcall" => {
+                let ot = self.type_of(&x[0], fr)?;
+                let f = self.resolve_method(&ot, x[1].atom(), &x[2..], fr)?;
                 self.ty(&f.args()[1])
             }
             _ => None,
@@ -349,6 +376,8 @@ impl<'a> TxV<'a> {
     fn read_name(&self, name: &str, fr: &Frame, gl: &HashMap<String, VV>) -> Option<VV> {
         if fr.types.contains_key(name) {
             Some(fr.vals.get(name).cloned().unwrap_or(VV::S(V::Void)))
+        } else if let Some((i, _)) = self.this_member(name, fr) {
+            get_acc(&fr.this.as_ref()?.1, &Acc::Field(i))
         } else if self.globals.iter().any(|g| g.0 == name) {
             Some(gl.get(name).cloned().unwrap_or(VV::S(V::Void)))
         } else {
@@ -360,6 +389,8 @@ impl<'a> TxV<'a> {
         if fr.types.contains_key(name) {
             fr.vals.insert(name.to_string(), v);
             Some(())
+        } else if let Some((i, _)) = self.this_member(name, fr) {
+            put_acc(&mut fr.this.as_mut()?.1, &Acc::Field(i), v)
         } else if self.globals.iter().any(|g| g.0 == name) {
             gl.insert(name.to_string(), v);
             Some(())
@@ -444,8 +475,24 @@ impl<'a> TxV<'a> {
         Some(shape + kind + if matches!(from, Ty::Enum(_)) { 10 } else { 0 })
     }
 
-    fn resolve(&self, name: &str, args: &[Sx], fr: &Frame) -> Option<&'a Sx> {
-        let cands = self.funcs.get(name)?;
+    /// a called name inside a method denotes a method of the same struct first, then a free function
+    fn resolve(&self, name: &str, args: &[Sx], fr: &Frame) -> Option<(&'a Sx, bool)> {
+        if let Some((k, _)) = &fr.this {
+            if let Some(cands) = self.methods.get(k).and_then(|m| m.get(name)) {
+                return self.resolve_among(name, cands, args, fr).map(|f| (f, true));
+            }
+        }
+        self.resolve_among(name, self.funcs.get(name)?, args, fr).map(|f| (f, false))
+    }
+
+    fn resolve_method(&self, obj_ty: &Ty, name: &str, args: &[Sx], fr: &Frame) -> Option<&'a Sx> {
+        match obj_ty {
+            Ty::Struct(k) => self.resolve_among(name, self.methods.get(k)?.get(name)?, args, fr),
+            _ => None,
+        }
+    }
+
+    fn resolve_among(&self, name: &str, cands: &Vec<&'a Sx>, args: &[Sx], fr: &Frame) -> Option<&'a Sx> {
         let mut arg_types = Vec::new();
         for arg in args {
             arg_types.push(self.type_of(arg, fr)?);
@@ -487,7 +534,8 @@ impl<'a> TxV<'a> {
         best.map(|b| b.1)
     }
 
-    fn call_user(&self, f: &'a Sx, args: &[Sx], fr: &mut Frame, gl: &mut HashMap<String, VV>, depth: u32) -> Option<VV> {
+    /// `this`: the struct and object value the callee runs on (a method); returns the value and the object's final value
+    fn call_user(&self, f: &'a Sx, args: &[Sx], this: Option<(String, VV)>, fr: &mut Frame, gl: &mut HashMap<String, VV>, depth: u32) -> Option<(VV, Option<VV>)> {
         let params = f.args()[2].args();
         let mut vals = Vec::new();
         let mut places: Vec<Option<(Place, Ty, Ty)>> = Vec::new();
@@ -509,20 +557,20 @@ impl<'a> TxV<'a> {
                 None => {
                     // default argument: evaluated in the callee's declaration context (globals only), converted to the parameter type
                     let d = p.args().get(3)?;
-                    let mut dfr = Frame { vals: HashMap::new(), types: HashMap::new(), ret: Ty::Void };
+                    let mut dfr = Frame { vals: HashMap::new(), types: HashMap::new(), ret: Ty::Void, this: None };
                     vals.push(self.eval_as(&pt, d, &mut dfr, gl, depth)?);
                     places.push(None);
                 }
             }
         }
-        let (ret, finals) = self.call(f, &vals, gl, depth)?;
+        let (ret, finals, final_this) = self.call(f, &vals, this, gl, depth)?;
         for (pl, v) in places.iter().zip(finals) {
             if let Some((pl, at, pt)) = pl {
                 let back = self.convert(pt, at, v)?;
                 self.write_place(pl, back, fr, gl)?;
             }
         }
-        Some(ret.unwrap_or(VV::S(V::Void)))
+        Some((ret.unwrap_or(VV::S(V::Void)), final_this))
     }
 
     /// `T(a, b, …)`: every argument converted to T's scalar kind in its own shape, flattened; the count must fit
@@ -605,8 +653,37 @@ impl<'a> TxV<'a> {
                 if let Some(t) = numeric_type_of_name(x[0].atom()) {
                     return self.construct(&t, &x[1..], fr, gl, depth);
                 }
-                let f = self.resolve(x[0].atom(), &x[1..], fr)?;
-                self.call_user(f, &x[1..], fr, gl, depth)
+                let (f, is_method) = self.resolve(x[0].atom(), &x[1..], fr)?;
+                if is_method {
+                    // another method of the object this method runs on
+                    let this = fr.this.clone();
+                    let (v, final_this) = self.call_user(f, &x[1..], this, fr, gl, depth)?;
+                    fr.this.as_mut()?.1 = final_this?;
+                    Some(v)
+                } else {
+                    Some(self.call_user(f, &x[1..], None, fr, gl, depth)?.0)
+                }
+            }
+            "mcall" => {
+                let ot = self.type_of(&x[0], fr)?;
+                let k = match &ot {
+                    Ty::Struct(k) => k.clone(),
+                    _ => return None,
+                };
+                let f = self.resolve_method(&ot, x[1].atom(), &x[2..], fr)?;
+                // the object first (a place when it is one), then the arguments
+                let (pl, obj) = match self.place(&x[0], fr, gl, depth) {
+                    Some(pl) => {
+                        let v = self.read_place(&pl, fr, gl)?;
+                        (Some(pl), v)
+                    }
+                    None => (None, self.eval(&x[0], fr, gl, depth)?),
+                };
+                let (v, final_this) = self.call_user(f, &x[2..], Some((k, obj)), fr, gl, depth)?;
+                if let Some(pl) = pl {
+                    self.write_place(&pl, final_this?, fr, gl)?;
+                }
+                Some(v)
             }
             "un" => match op_sem(x[0].atom()) {
                 OpSem::Un(m) => {
@@ -977,7 +1054,7 @@ impl<'a> TxV<'a> {
         }
     }
 
-    fn call(&self, f: &'a Sx, vals: &[VV], gl: &mut HashMap<String, VV>, depth: u32) -> Option<(Option<VV>, Vec<VV>)> {
+    fn call(&self, f: &'a Sx, vals: &[VV], this: Option<(String, VV)>, gl: &mut HashMap<String, VV>, depth: u32) -> Option<(Option<VV>, Vec<VV>, Option<VV>)> {
         if depth == 0 {
             return None;
         }
@@ -985,7 +1062,7 @@ impl<'a> TxV<'a> {
         if params.len() != vals.len() {
             return None;
         }
-        let mut fr = Frame { vals: HashMap::new(), types: HashMap::new(), ret: self.ty(&f.args()[1])? };
+        let mut fr = Frame { vals: HashMap::new(), types: HashMap::new(), ret: self.ty(&f.args()[1])?, this };
         self.collect_decls(&f.args()[3], &mut fr.types)?;
         let mut names = Vec::new();
         for (p, v) in params.iter().zip(vals) {
@@ -1002,7 +1079,7 @@ impl<'a> TxV<'a> {
             VFlow::Ret(Some(v)) => Some(v),
             _ => None,
         };
-        Some((ret, names.iter().map(|n| fr.vals.get(n).cloned().unwrap_or(VV::S(V::Void))).collect()))
+        Some((ret, names.iter().map(|n| fr.vals.get(n).cloned().unwrap_or(VV::S(V::Void))).collect(), fr.this.map(|t| t.1)))
     }
 
     pub fn init_globals(&self) -> Option<HashMap<String, VV>> {
@@ -1010,7 +1087,7 @@ impl<'a> TxV<'a> {
         for (n, t, init) in &self.globals {
             let v = match init {
                 Some(i) => {
-                    let mut fr = Frame { vals: HashMap::new(), types: HashMap::new(), ret: Ty::Void };
+                    let mut fr = Frame { vals: HashMap::new(), types: HashMap::new(), ret: Ty::Void, this: None };
                     let mut scratch = gl.clone();
                     self.init_value(t, i, &mut fr, &mut scratch, 1)?
                 }
@@ -1029,7 +1106,7 @@ impl<'a> TxV<'a> {
             vnote(format!("text: {} definitions of {}", cands.len(), name));
             return None;
         }
-        let (ret, params) = self.call(cands[0], vals, &mut gl, DEPTH)?;
+        let (ret, params, _) = self.call(cands[0], vals, None, &mut gl, DEPTH)?;
         Some(VOutcome { ret, params, globals: order.iter().map(|n| gl.get(n).cloned().unwrap_or(VV::S(V::Void))).collect() })
     }
 }
